@@ -15,6 +15,7 @@ class Pipe(AS.Function):
         for evaluation in self._evaluations:
             arg = yield from evaluation(metadata, argv)
             argv = [arg]
+        utils.check_min_arity(metadata, argv, 1)
         return argv[0]
 
 
